@@ -8276,6 +8276,7 @@ hawk_ooch_t* hawk_rtx_format (
 	hawk_oow_t nargs_on_stack, hawk_nde_t* args, hawk_oow_t* len)
 {
 	hawk_oow_t i;
+	hawk_oow_t spec_start = 0; /* index of % beginning the current format specifier */
 	hawk_oow_t stack_arg_idx = 1;
 	hawk_val_t* val;
 
@@ -8358,6 +8359,7 @@ hawk_ooch_t* hawk_rtx_format (
 			{
 				/* add % to format specifier (fbu) */
 				FMT_CHAR (fmt[i]);
+				spec_start = i;
 			}
 			else
 			{
@@ -9140,7 +9142,8 @@ wp_mod_main:
 		}
 		else
 		{
-			if (fmt[i] != HAWK_T('%')) OUT_STR (HAWK_OOECS_PTR(fbu), HAWK_OOECS_LEN(fbu));
+			/* copy an unknown specifier through as it is written in the format string */
+			if (fmt[i] != HAWK_T('%')) OUT_STR (&fmt[spec_start], i - spec_start);
 			OUT_CHAR (fmt[i]);
 			goto skip_taking_arg;
 		}
@@ -9151,8 +9154,8 @@ wp_mod_main:
 		hawk_ooecs_clear (fbu);
 	}
 
-	/* flush uncompleted formatting sequence */
-	OUT_STR (HAWK_OOECS_PTR(fbu), HAWK_OOECS_LEN(fbu));
+	/* flush uncompleted formatting sequence as it is written in the format string */
+	if (HAWK_OOECS_LEN(fbu) > 0) OUT_STR (&fmt[spec_start], fmt_len - spec_start);
 
 	*len = HAWK_OOECS_LEN(out);
 	return HAWK_OOECS_PTR(out);
@@ -9166,6 +9169,7 @@ hawk_bch_t* hawk_rtx_formatmbs (
 	hawk_oow_t nargs_on_stack, hawk_nde_t* args, hawk_oow_t* len)
 {
 	hawk_oow_t i;
+	hawk_oow_t spec_start = 0; /* index of % beginning the current format specifier */
 	hawk_oow_t stack_arg_idx = 1;
 	hawk_val_t* val;
 
@@ -9248,6 +9252,7 @@ hawk_bch_t* hawk_rtx_formatmbs (
 			{
 				/* add % to format specifier (fbu) */
 				FMT_MCHAR (fmt[i]);
+				spec_start = i;
 			}
 			else
 			{
@@ -10039,7 +10044,8 @@ wp_mod_main:
 		}
 		else
 		{
-			if (fmt[i] != HAWK_BT('%')) OUT_MBS (HAWK_BECS_PTR(fbu), HAWK_BECS_LEN(fbu));
+			/* copy an unknown specifier through as it is written in the format string */
+			if (fmt[i] != HAWK_BT('%')) OUT_MBS (&fmt[spec_start], i - spec_start);
 			OUT_MCHAR (fmt[i]);
 			goto skip_taking_arg;
 		}
@@ -10050,8 +10056,8 @@ wp_mod_main:
 		hawk_becs_clear (fbu);
 	}
 
-	/* flush uncompleted formatting sequence */
-	OUT_MBS (HAWK_BECS_PTR(fbu), HAWK_BECS_LEN(fbu));
+	/* flush uncompleted formatting sequence as it is written in the format string */
+	if (HAWK_BECS_LEN(fbu) > 0) OUT_MBS (&fmt[spec_start], fmt_len - spec_start);
 
 	*len = HAWK_BECS_LEN(out);
 	return HAWK_BECS_PTR(out);
